@@ -11,10 +11,10 @@ theorem Flags.or_none_iff (a b : Flags) : a.or b = Flags.none ↔ a = Flags.none
   cases a; cases b
   simp only [Flags.or, Flags.none, Flags.mk.injEq, Bool.or_eq_false_iff]
   constructor
-  · rintro ⟨⟨h1, h1'⟩, ⟨h2, h2'⟩, ⟨h3, h3'⟩, ⟨h4, h4'⟩⟩
-    exact ⟨⟨h1, h2, h3, h4⟩, ⟨h1', h2', h3', h4'⟩⟩
-  · rintro ⟨⟨h1, h2, h3, h4⟩, ⟨h1', h2', h3', h4'⟩⟩
-    exact ⟨⟨h1, h1'⟩, ⟨h2, h2'⟩, ⟨h3, h3'⟩, ⟨h4, h4'⟩⟩
+  · rintro ⟨⟨h1, h1'⟩, ⟨h2, h2'⟩, ⟨h3, h3'⟩⟩
+    exact ⟨⟨h1, h2, h3⟩, ⟨h1', h2', h3'⟩⟩
+  · rintro ⟨⟨h1, h2, h3⟩, ⟨h1', h2', h3'⟩⟩
+    exact ⟨⟨h1, h1'⟩, ⟨h2, h2'⟩, ⟨h3, h3'⟩⟩
 
 @[simp] theorem Flags.none_or (a : Flags) : Flags.none.or a = a := by
   cases a; simp [Flags.or, Flags.none]
@@ -115,12 +115,12 @@ def eraseFocus (li : Option Item) (pos size : Nat) : Focus :=
   if li.isSome then (li, pos, size) else (none, 1, 1)
 
 def eraseObj (o : FObj) : SObj :=
-  { code := o.code, lex := o.lex, fixed := o.fixed, focus := eraseFocus o.flitem o.fpos o.fsize,
+  { code := o.code, lex := o.lex, fixed := o.fixed, focus := eraseFocus o.fitem o.fpos o.fsize,
     sig := o.sig }
 def eraseHeap (h : List FObj) : SHeap := h.map eraseObj
 def eraseCtx (c : ICtx) : SCtx :=
-  { lex := c.lex, item := c.litem, pos := (eraseFocus c.litem c.pos c.size).2.1,
-    size := (eraseFocus c.litem c.pos c.size).2.2 }
+  { lex := c.lex, item := c.item, pos := (eraseFocus c.item c.pos c.size).2.1,
+    size := (eraseFocus c.item c.pos c.size).2.2 }
 
 @[simp] theorem eraseHeap_length (h : List FObj) : (eraseHeap h).length = h.length := by
   simp [eraseHeap]
